@@ -1,0 +1,73 @@
+//go:build verif
+// +build verif
+
+package core
+
+import (
+	"gopkg.in/src-d/go-git.v4/plumbing/object"
+)
+
+// VerifAction is the exported image of runAction.
+type VerifAction struct {
+	Action int
+	Commit *object.Commit
+	Items  []int
+}
+
+// Verif action codes.
+const (
+	VerifActionCommit    = runActionCommit
+	VerifActionFork      = runActionFork
+	VerifActionMerge     = runActionMerge
+	VerifActionEmerge    = runActionEmerge
+	VerifActionDelete    = runActionDelete
+	VerifActionHibernate = runActionHibernate
+	VerifActionBoot      = runActionBoot
+	VerifRootBranchIndex = rootBranchIndex
+)
+
+func verifExport(plan []runAction) []VerifAction {
+	res := make([]VerifAction, len(plan))
+	for i, p := range plan {
+		res[i] = VerifAction{Action: p.Action, Commit: p.Commit, Items: append([]int{}, p.Items...)}
+	}
+	return res
+}
+
+func verifImport(plan []VerifAction) []runAction {
+	res := make([]runAction, len(plan))
+	for i, p := range plan {
+		res[i] = runAction{Action: p.Action, Commit: p.Commit, Items: append([]int{}, p.Items...)}
+	}
+	return res
+}
+
+// VerifPrepareRunPlan exposes prepareRunPlan.
+func VerifPrepareRunPlan(commits []*object.Commit, hibernationDistance int) []VerifAction {
+	return verifExport(prepareRunPlan(commits, hibernationDistance, false))
+}
+
+// VerifGeneratePlan runs the planner up to and including generatePlan (no garbage collection, no hibernation).
+func VerifGeneratePlan(commits []*object.Commit) []VerifAction {
+	hashes, dag := buildDag(commits)
+	leaveRootComponent(hashes, dag)
+	mergedDag, mergedSeq := mergeDag(hashes, dag)
+	orderNodes := bindOrderNodes(mergedDag)
+	collapseFastForwards(orderNodes, hashes, mergedDag, dag, mergedSeq)
+	return verifExport(generatePlan(orderNodes, hashes, mergedDag, dag, mergedSeq))
+}
+
+// VerifCollectGarbage exposes collectGarbage.
+func VerifCollectGarbage(plan []VerifAction) []VerifAction {
+	return verifExport(collectGarbage(verifImport(plan)))
+}
+
+// VerifInsertHibernateBoot exposes insertHibernateBoot.
+func VerifInsertHibernateBoot(plan []VerifAction, hibernationDistance int) []VerifAction {
+	return verifExport(insertHibernateBoot(verifImport(plan), hibernationDistance))
+}
+
+// VerifItems returns the items of the pipeline in their current (after Initialize: resolved) order.
+func (pipeline *Pipeline) VerifItems() []PipelineItem {
+	return append([]PipelineItem{}, pipeline.items...)
+}
